@@ -900,6 +900,8 @@ func ghostType(g *GhostDef) types.Type {
 		return types.NewArray(types.Typ[types.Uint8], 0)
 	case "reals":
 		return types.NewArray(types.Typ[types.Float64], 0)
+	case "strs":
+		return types.NewArray(types.Typ[types.String], 0)
 	case "ints":
 		return types.NewArray(types.Typ[types.Int], 0)
 	}
